@@ -80,7 +80,7 @@ def _abstract(t):
 # execution context
 # --------------------------------------------------------------------------------------------------
 class Ctx:
-    def __init__(self, decisions=(), branch_timeout_ms=400, max_decisions=4000):
+    def __init__(self, decisions=(), branch_timeout_ms=400, max_decisions=4000, name_threshold=None):
         self.solver = z3.Solver()
         self.solver.set('timeout', branch_timeout_ms)
         self.decisions = list(decisions)
@@ -88,7 +88,9 @@ class Ctx:
         self.pc = []             # exact path-condition conjuncts (z3 Bool)
         self.assume = []         # harness assumptions (exact)
         self.defined = []        # definedness assumptions (den != 0), with provenance
-        self.side = []           # side constraints introduced by exact encodings (max/min/floor, named terms)
+        self.side = []           # side constraints introduced by exact encodings (max/min/floor)
+        self.defs = []           # defining equations of named large terms (v == term); dropping them generalises
+        self.name_threshold = name_threshold
         self.tokens = []         # provenance tokens (term, spec)
         self.fresh = 0
         self.max_decisions = max_decisions
@@ -167,8 +169,15 @@ class Ctx:
         self.solver.add(ac if d else z3.Not(ac))
         return d
 
-    def all_constraints(self):
-        return list(self.assume) + list(self.defined) + list(self.side) + list(self.pc)
+    def all_constraints(self, with_defs=True):
+        return list(self.assume) + list(self.defined) + list(self.side) + list(self.pc) + (list(self.defs) if with_defs else [])
+
+    def name_term(self, t):
+        """definitional naming: returns a fresh variable v with the recorded definition v == t."""
+        v = self.fresh_real('def')
+        self.defs.append(v == t)
+        self.solver.add(abstract(v == t))
+        return v
 
 
 CTX: Ctx | None = None
@@ -319,17 +328,23 @@ MARK_BASE = 0xE000
 
 
 class SymReal:
-    __slots__ = ('t',)
+    __slots__ = ('t', 'sz')
 
-    def __init__(self, t):
+    def __init__(self, t, sz=1):
         self.t = t
+        self.sz = sz
 
     # arithmetic --------------------------------------------------------------------------------
     def _bin(self, o, f):
         l = lift(o)
         if l is None:
             return NotImplemented
-        return SymReal(f(self.t, l))
+        sz = self.sz + (o.sz if isinstance(o, SymReal) else 1) + 1
+        r = f(self.t, l)
+        c = CTX
+        if c is not None and c.name_threshold is not None and sz > c.name_threshold:
+            return SymReal(c.name_term(r), 1)
+        return SymReal(r, sz)
 
     def __add__(self, o):
         return self._bin(o, lambda a, b: a + b)
@@ -358,7 +373,7 @@ class SymReal:
                 raise ZeroDivisionError('symbolic / 0')
             return SymReal(self.t / l)
         ctx().add_defined(l)
-        return SymReal(self.t / l)
+        return self._bin(o, lambda a, b: a / b)
 
     def __rtruediv__(self, o):
         l = lift(o)
@@ -388,8 +403,8 @@ class SymReal:
                 r = r * self.t
             if n < 0:
                 ctx().add_defined(self.t)
-                return SymReal(1 / r)
-            return SymReal(r)
+                return SymReal(1 / r, self.sz * abs(n) + 1)
+            return SymReal(r, self.sz * abs(n))
         if isinstance(o, (int, float, np.integer, np.floating)) and float(o) == 0.5:
             return apply_uf('sqrt', self)
         l = lift(o)
@@ -738,7 +753,7 @@ def prove(c: Ctx, prop, extra=(), timeout_ms=20000):
     else:
         neg = [z3.Not(prop)]
     s = getattr(c, '_psolver', None)
-    ncons = len(c.assume) + len(c.defined) + len(c.side) + len(c.pc)
+    ncons = len(c.assume) + len(c.defined) + len(c.side) + len(c.pc) + len(c.defs)
     if s is None or c._pcount != ncons:
         s = z3.Solver()
         s.add(*c.all_constraints())
